@@ -349,6 +349,16 @@ func (hs *serverHandshakeState) checkForResumption() bool {
 	if hs.suite == nil {
 		return false
 	}
+
+	// 会话重用不得绕过当前的客户端认证策略：要求客户端证书而会话中没有，
+	// 或者策略为不要求证书而会话中带有证书时，均退回完整握手。
+	sessionHasClientCerts := len(hs.sessionState.peerCertificates) != 0
+	if requiresClientCert(c.config.ClientAuth) && !sessionHasClientCerts {
+		return false
+	}
+	if sessionHasClientCerts && c.config.ClientAuth == NoClientCert {
+		return false
+	}
 	return true
 }
 
@@ -368,7 +378,14 @@ func (hs *serverHandshakeState) doResumeHandshake() error {
 		return err
 	}
 
-	c.peerCertificates = hs.sessionState.peerCertificates
+	// 按当前配置（ClientAuth、ClientCAs、时间）重新校验会话中记录的客户端证书
+	sessionCerts := make([][]byte, len(hs.sessionState.peerCertificates))
+	for i, cert := range hs.sessionState.peerCertificates {
+		sessionCerts[i] = cert.Raw
+	}
+	if err := c.processCertsFromClient(Certificate{Certificate: sessionCerts}); err != nil {
+		return err
+	}
 
 	if c.config.VerifyConnection != nil {
 		if err := c.config.VerifyConnection(c.connectionStateLocked()); err != nil {
